@@ -534,12 +534,35 @@ def check_member_parser(fx, rep, rule):
               else "%d event sequences = the documented grammar (all combinations of the optional groups)" % len(have),
               expected="`    [s:e:]type [class.]name[(args)[:os[:oe]]] -> obfuscated` with line-bounded scans")
     # wiring of captures into the record (C05.4) per sequence
+    def norm_rfind(t):
+        """`match x.rfind(c) { Some(d) => (&x[..d], &x[d + 1..]) .. }` with a one-byte char c is `x.rsplit_once(c)`"""
+        def rf(u):
+            return u[0] == "payload" and u[2] == "Some" and u[1][0] == "call" and u[1][1] == "core::str::rfind" and len(u[1][2]) == 2 \
+                and u[1][2][1][0] == "lit" and u[1][2][1][1] == "char" and ord(u[1][2][1][2]) < 128
+
+        def f(u):
+            if u[0] == "call" and u[1] == "std::ops::Index::index" and len(u[2]) == 2:
+                u = ("index", u[2][0], u[2][1])
+            if u[0] == "index" and u[2][0] == "adt" and u[2][1] in ("RangeTo", "RangeFrom") and len(u[2][3]) == 1:
+                bound = u[2][3][0][1]
+                if u[2][1] == "RangeTo" and rf(bound) and bound[1][2][0] == u[1]:
+                    return mk_field(mk_payload(("call", "core::str::rsplit_once", bound[1][2]), "Some", "0"), "0")
+                if u[2][1] == "RangeFrom" and bound[0] == "lin" and bound[2] == 1 and len(bound[1]) == 1 and bound[1][0][1] == 1 and rf(bound[1][0][0]) \
+                        and bound[1][0][0][1][2][0] == u[1]:
+                    return mk_field(mk_payload(("call", "core::str::rsplit_once", bound[1][0][0][1][2]), "Some", "0"), "1")
+            if u[0] == "is" and u[2] == "Some" and u[1][0] == "call" and u[1][1] == "core::str::rfind" and len(u[1][2]) == 2 \
+                    and u[1][2][1][0] == "lit" and u[1][2][1][1] == "char" and ord(u[1][2][1][2]) < 128:
+                return ("is", ("call", "core::str::rsplit_once", u[1][2]), "Some")
+            return None
+        return fc.rewrite(t, f)
     wiring_ok = True
     wdesc = []
     presence_seen = [0]
     for events, (capi, flags) in ref.items():
         for rec, idx_of, st in have.get(events, []):
-            w = record_wiring(rec, idx_of)
+            w = norm_rfind(record_wiring(rec, idx_of))
+            st = st.copy()
+            st.conds = tuple((norm_rfind(a_), p_) for a_, p_ in st.conds)
             C_ = lambda k: ("cap", capi[k])
             if not flags["has_args"]:
                 want = ("adt", "ProguardRecord", "Field", (("ty", C_("ty")), ("original", C_("orig")), ("obfuscated", C_("obf"))))
